@@ -1309,6 +1309,174 @@ def zero_predicate_table(expr, pname):
     return table
 
 
+def read_mode_generator(idx, fi, gexpr):
+    """A stream of satisfied modes: {'src': modes expression, 'conds': yield conditions, 'ecalls': estimator calls} for
+    `(m for m in SRC if COND)`, `filter(f, SRC)` or a call of a generator helper `for m in <param>: ...; if COND: yield m`
+    (expressions are given in terms of the caller).  None when the shape is not read."""
+    g = lib.inline_locals(gexpr, fi.node)
+    if isinstance(g, (ast.GeneratorExp, ast.ListComp)) and len(g.generators) == 1 and isinstance(g.generators[0].target, ast.Name) \
+            and is_name(g.elt, g.generators[0].target.id):
+        gen = g.generators[0]
+        return {'src': gen.iter, 'conds': list(gen.ifs), 'var': gen.target.id, 'body': list(gen.ifs), 'env': {}}
+    if isinstance(g, ast.Call) and isinstance(g.func, (ast.Attribute, ast.Name)):
+        callee = resolve_function(idx, fi, g.func)
+        if callee is None or not any(isinstance(n, ast.Yield) for n in walk_own(callee.node)):
+            return None
+        env = bind_call(callee, g)
+        if env is None:
+            return None
+        loops = [n for n in callee.node.body if isinstance(n, ast.For)]
+        others = [n for n in callee.node.body if not isinstance(n, ast.For) and not (isinstance(n, ast.Expr) and isinstance(n.value, ast.Constant))]
+        if len(loops) != 1 or others or not isinstance(loops[0].target, ast.Name) or not isinstance(loops[0].iter, ast.Name) \
+                or loops[0].iter.id not in env or loops[0].orelse:
+            return None
+        loop = loops[0]
+        var = loop.target.id
+        yields = [n for n in ast.walk(loop) if isinstance(n, ast.Yield)]
+        if len(yields) != 1 or not is_name(yields[0].value, var):
+            return None
+        if lib.loop_has_early_exit(loop):
+            return None
+        # condition of the yield: the tests of the enclosing ifs, locals of the loop body inlined
+        local = {}
+        for n in loop.body:
+            if isinstance(n, ast.Assign) and len(n.targets) == 1 and isinstance(n.targets[0], ast.Name):
+                local[n.targets[0].id] = nf.subst(n.value, local)
+        conds = []
+        node = yields[0]
+        child = node
+        for a_ in ancestors(node):
+            if a_ is loop:
+                break
+            if isinstance(a_, ast.If):
+                t = nf.canon(nf.subst(a_.test, local))
+                conds.append(t if any(child is x for st in a_.body for x in ast.walk(st)) else nf.negate(t))
+            child = a_
+        sub = dict(env)
+        conds = [nf.subst(c, sub) for c in conds]
+        body = [nf.subst(nf.subst(v, local), sub) for v in local.values()] + conds
+        return {'src': env[loop.iter.id], 'conds': conds, 'var': var, 'body': body, 'env': env, 'callee': callee.qualname}
+    return None
+
+
+def mode_selection_shape(r, idx, ci, call, finals, P, S, U):
+    """The result is built for ONE selected mode (`{'grade_decimal': self.config[m], ...}` with m chosen from a stream of satisfied
+    modes) instead of max over per-mode results.  Returns True when this shape was recognised and judged here."""
+    chosen = None
+    for p in finals:
+        lit = resolve_result(idx, call, p.leaf.expr)
+        d = dict_items(lit) if lit is not None else None
+        g = d.get('grade_decimal') if d else None
+        if g is not None and isinstance(g, ast.Subscript) and nf.config_key(g) is None and isinstance(g.value, ast.Attribute) \
+                and g.value.attr == 'config' and isinstance(g.slice, (ast.Name, ast.Call)):
+            chosen = (p, g.slice)
+    if chosen is None:
+        return False
+    p, msel = chosen
+    where = lib.loc(call, p.leaf.stmt)
+    if isinstance(msel, ast.Name):
+        vals = lib.assigned_value(call.node, msel.id)
+        if len(vals) != 1 or not isinstance(vals[0], ast.Call):
+            return False
+        sel = vals[0]
+    else:
+        sel = msel
+    kind = nf.callee_name(sel)
+    construct = self_contained(idx, call, 'LinearComparer.__call__: selection')
+    if kind not in ('next', 'max', 'min') or not sel.args:
+        r.undecided(construct, 'the reported mode is chosen by `%s`' % short(sel, 70), where)
+        return True
+    stream = read_mode_generator(idx, call, sel.args[0])
+    if stream is None:
+        r.undecided(construct, 'the stream of satisfied modes `%s` cannot be read (lazy generator without a loop-and-yield shape)'
+                    % short(sel.args[0], 70), where)
+        return True
+    if stream.get('callee') in (getattr(idx, 'unreviewed', None) or []):
+        # the generator helper was read as a whole (one loop over its parameter, one conditional yield of the loop variable)
+        construct = 'LinearComparer.__call__: selection (generator %s read as a whole)' % stream['callee']
+    src = lib.inline_locals(stream['src'], call.node)
+    by_credit = isinstance(src, ast.Call) and nf.callee_name(src) == 'sorted' and 'config' in unparse(lib.get_kw(src, 'key') or ast.Constant(value=None)) \
+        and nf.const_value(lib.get_kw(src, 'reverse') or ast.Constant(value=False)) is True
+    if kind == 'next':
+        if by_credit:
+            r.ok(construct, 'first satisfied mode of a stream sorted by decreasing credit', where)
+        else:
+            r.violation(construct, 'the reported mode is `%s`: the FIRST satisfied mode in the order of `%s` (the declaration order equals, '
+                        'proportional, offset, linear) instead of the satisfied mode with the LARGEST configured credit. Credits are free '
+                        'per mode (e.g. proportional=0.5, linear=0.8): a proportional answer then earns 0.5 although the linear relation, '
+                        'which also holds, is worth 0.8' % (short(sel, 60), short(src, 50)), where,
+                        expected="max(results, key=lambda result: (result['grade_decimal'], result['msg']))", found=short(sel, 80))
+    elif kind == 'min':
+        r.violation(construct, 'the satisfied mode with the smallest key is reported', where, expected='max by credit', found=short(sel, 80))
+    else:
+        key = lib.get_kw(sel, 'key')
+        good = key is not None and isinstance(key, ast.Lambda) and len(key.args.args) == 1 and \
+            any(isinstance(n, ast.Subscript) and isinstance(n.value, ast.Attribute) and n.value.attr == 'config'
+                and is_name(n.slice, key.args.args[0].arg) for n in ast.walk(key.body))
+        first = None
+        if good:
+            kb = key.body.elts[0] if isinstance(key.body, ast.Tuple) and key.body.elts else key.body
+            good = isinstance(kb, ast.Subscript) and is_name(kb.slice, key.args.args[0].arg)
+        if good:
+            r.ok(construct, 'the satisfied mode with the largest configured credit (max by self.config[mode])', where)
+        else:
+            r.undecided(construct, 'max over the satisfied modes with key `%s`' % (short(key, 60) if key is not None else 'none'), where)
+    # the other obligations, read off the stream
+    default_ok = any(is_zero_result(resolve_result(idx, call, q.leaf.expr) or q.leaf.expr) or
+                     (dict_items(resolve_result(idx, call, q.leaf.expr) or q.leaf.expr) or {}).get('grade_decimal') is not None and
+                     nf.const_value((dict_items(resolve_result(idx, call, q.leaf.expr) or q.leaf.expr) or {}).get('grade_decimal'), 1) == 0
+                     for q in finals if q is not p)
+    cond_ok = None
+    for c in stream['conds']:
+        neg = isinstance(c, ast.UnaryOp) and isinstance(c.op, ast.Not)
+        core = c.operand if neg else c
+        tb = nf.match('is_nearly_zero(_ERR, _U.tolerance, reference=__)', core)
+        if tb is None and isinstance(core, ast.Call) and isinstance(core.func, ast.Name):
+            pred = idx.funcs.get(call.qualname + '.<locals>.' + core.func.id)
+            if pred is not None:
+                rets = lib.returns_of(pred.node)
+                if len(rets) == 1 and nf.match('is_nearly_zero(_ERR, _U.tolerance, reference=__)', rets[0].value) is not None:
+                    tb = True
+        if tb is not None:
+            cond_ok = not neg
+    cconstruct = self_contained(idx, call, 'LinearComparer.__call__: credit rule')
+    if cond_ok is True and default_ok:
+        r.ok(cconstruct, 'a mode counts iff its fit error is nearly zero; no satisfied mode -> credit 0', where)
+    elif cond_ok is False:
+        r.violation(cconstruct, 'the credit rule is inverted: a relation counts as satisfied when its fit error is NOT nearly zero', where)
+    else:
+        r.undecided(cconstruct, 'condition of the stream of satisfied modes not recognised', where)
+    ecalls = [c for e_ in stream['body'] for c in ast.walk(e_) if isinstance(c, ast.Call) and isinstance(c.func, ast.Subscript)
+              and isinstance(c.func.value, ast.Attribute) and c.func.value.attr == 'error_calculators']
+    econstruct = self_contained(idx, call, 'LinearComparer.__call__: estimator arguments')
+    if not ecalls:
+        r.undecided(econstruct, 'no estimator call found in the stream of satisfied modes', where)
+    for c in ecalls[:1]:
+        x, y = (list(c.args) + [None, None])[:2]
+        if x is None or y is None:
+            r.undecided(econstruct, 'call `%s` not recognised' % short(c, 70), where)
+            continue
+        x, y = lib.inline_locals(x, call.node), lib.inline_locals(y, call.node)
+        if mentions(x, S) and not mentions(x, P) and mentions(y, P) and not mentions(y, S):
+            r.ok(econstruct, 'fit of expected against student: (student samples, expected samples)', where)
+        elif mentions(x, P) and not mentions(x, S) and mentions(y, S) and not mentions(y, P):
+            r.violation(econstruct, 'the estimators are called as (expected, student): the relation tested becomes student = a*expected + b',
+                        where, expected='(student, expected)', found=short(c, 80))
+        else:
+            r.undecided(econstruct, 'estimator arguments not recognised', where)
+    fconstruct = self_contained(idx, call, 'LinearComparer.__call__: mode filter')
+    if by_credit and isinstance(src, ast.Call) and src.args:
+        src = lib.inline_locals(src.args[0], call.node)
+    b = nf.match('self.get_valid_modes(self.check_comparing_zero(_P, _S, _U.tolerance))', src)
+    if b is not None and is_name(b['_P'], P) and is_name(b['_S'], S):
+        r.ok(fconstruct, 'get_valid_modes(check_comparing_zero(expected, student, tolerance))', where)
+    elif nf.match('self.modes', src) is not None:
+        r.violation(fconstruct, 'the relations compared are self.modes, not get_valid_modes(...): the zero filter is bypassed', where)
+    else:
+        r.undecided(fconstruct, 'source `%s` of the modes not recognised' % short(src, 80), where)
+    return True
+
+
 def d1_linear(ctx, idx):
     r = ctx.rule('D1.LINEAR', 'LinearComparer: sample floor, zero-compatible modes, estimator table, zero detection, best configured credit', floor=17)
     with r:
@@ -1472,6 +1640,8 @@ def d1_linear(ctx, idx):
         if not finals:
             raise AnalysisError('LinearComparer.__call__: no returning path')
         seen_expr = []
+        if mode_selection_shape(r, idx, ci, call, finals, P, S, U):
+            finals = []
         for p in finals:
             e = p.leaf.expr
             if any(nf.equal(e, x) for x in seen_expr):
@@ -2637,6 +2807,7 @@ MUTANTS = [
            "        expected_zero = any(np.any(x == 0.0) for [x] in comparer_params_evals)", 'D1'),
     Mutant('equality-comprehension-transforms-expected-twice', CMP, "        expected_eval = transform(expected_eval)\n        student_eval = transform(student_eval)\n",
            "        expected_eval, student_eval = [transform(value) for value in (expected_eval, expected_eval)]\n", 'D1'),
+    Mutant('seeded-C16k-first-satisfied-mode-instead-of-best', LIN, hunks('C16k', LIN), None, 'D1'),
     Mutant('linear-validation-removed', LIN, "            utils.validate_shape(student_evals[0], shape)", "            pass", 'D2'),
     Mutant('nearly-zero-strict', MF, "    return np.linalg.norm(x) <= tolerance", "    return np.linalg.norm(x) < tolerance", 'D1'),
     Mutant('nearly-zero-relative-to-itself', MF, "        tolerance = np.linalg.norm(reference) * percentage_as_number(tolerance)",
@@ -2785,5 +2956,8 @@ BENIGN = [
            "            return {'ok': False, 'grade_decimal': 0, 'msg': str(err)}\n        return None\n"),
     Benign('equality-both-transforms-in-one-comprehension', CMP, "        expected_eval = transform(expected_eval)\n        student_eval = transform(student_eval)\n",
            "        expected_eval, student_eval = [transform(value) for value in (expected_eval, student_eval)]\n"),
+    Benign('C16k-corrected-best-satisfied-mode', LIN, hunks('C16k', LIN, fixes=[
+        ("        best_mode = next(satisfied_modes, None)\n",
+         "        best_mode = max(satisfied_modes, key=lambda mode: (self.config[mode], self.config[mode + '_msg']), default=None)\n")]), None),
     Benign('eigen-log-statement', CMP, "    expected = eigenvalue * student_eval\n    actual = matrix * student_eval\n", "    expected = eigenvalue * student_eval\n    actual = matrix * student_eval\n    _unused = len(comparer_params_eval)\n"),
 ]
